@@ -201,11 +201,8 @@ def expectedRouting : List (String × String × MethodSel) := [
       ("/settings/disinfection/orp/pterm", "disinfection", .const "orp_pterm"),
       ("/status/water/counter", "arduino", .const "restore_water_counter")]
 
-/-- topic ↦ (controller, setter) is exactly the documented map -/
-theorem C14_fact_methods :
-    table.map (fun e => (e.topic, e.target, e.method)) = expectedRouting := by decide
-
-/-- the same fact by lookup, insensitive to the order of `register`: every topic is routed to its controller and method -/
+/-- every topic is routed to its controller and method, and there is no other topic (by lookup: insensitive to the order of
+    the entries in `register`) -/
 theorem C14_fact_routing :
     (expectedRouting.all fun (t, tg, m) => (entryOf table t).map (fun e => (e.target, e.method)) == some (tg, m)) = true ∧
     table.length = expectedRouting.length := by decide
